@@ -101,6 +101,19 @@ theorem quot_moment (c0 : Nat) (n : Node) (hist : List Effect) (hm : Moment M c0
       (by rw [quot_recover]; simp only; rw [quot_liveRun]; exact h)
     rw [quot_recover] at this
     exact this
+  | stoppedFirst ins ok =>
+    have := Moment.stoppedFirst (M := quotMachine M r hb) (c0 := c0) ins
+      ((quot_listenOK M r hb ins _).2 ok)
+    have e1 : (quotMachine M r hb).init (c0 + 1) = Quotient.mk r (M.init (c0 + 1)) := rfl
+    rw [e1, quot_liveRun] at this
+    exact this
+  | stoppedResumed n hist _ cont okc ih =>
+    have := Moment.stoppedResumed (M := quotMachine M r hb) n hist ih cont
+      (by rw [quot_recover]; exact (quot_listenOK M r hb cont _).2 okc)
+    rw [quot_recover] at this
+    simp only at this
+    rw [quot_liveRun] at this
+    exact this
 
 theorem quot_logged (ins : List Input) (s : S) :
     loggedEntries (quotMachine M r hb) (Quotient.mk r s) ins = loggedEntries M s ins := by
